@@ -1,6 +1,7 @@
 package rules
 
 import (
+	"go/ast"
 	"fmt"
 	"go/types"
 	"math/big"
@@ -451,6 +452,31 @@ func (c *Ctx) c06WithTTL() {
 	if nUpdate == 0 || nFresh == 0 {
 		r.Unknown("R06.3", "WithTTL", fmt.Sprintf("vacuous: %d update paths, %d fresh paths", nUpdate, nFresh))
 	}
+	// the cell is written by WithTTL only: nothing else in the package assigns through a *time.Duration (a backend that "reports" a
+	// remaining TTL into the reader's cell makes every later Write with that context use it)
+	info := c.Pkg.TypesInfo
+	c.eachFuncDecl(func(fd *ast.FuncDecl, fn *types.Func) {
+		fname := strings.TrimPrefix(pw.FuncName(fn), "cache.")
+		if fname == "WithTTL" || c.isNewAPI(fn) {
+			return
+		}
+		ast.Inspect(fd.Body, func(x ast.Node) bool {
+			as, ok := x.(*ast.AssignStmt)
+			if !ok {
+				return true
+			}
+			for _, l := range as.Lhs {
+				st, ok := ast.Unparen(l).(*ast.StarExpr)
+				if !ok {
+					continue
+				}
+				if t := info.TypeOf(st.X); t != nil && types.TypeString(t, nil) == "*time.Duration" {
+					r.Bad("R06.3", fname, "ttl-cell-written-outside-WithTTL", c.Pos(as.Pos()), "a *time.Duration is assigned through outside WithTTL: the TTL cell of a caller's context is rewritten behind the caller's back", nil)
+				}
+			}
+			return true
+		})
+	})
 	if !hasViolation(r.Obls, "R06.3", "WithTTL") {
 		r.OK("R06.3", "WithTTL", fmt.Sprintf("%d paths, %d (path, ordering) cases, 13 weak orderings of (*existing, ttl, 0)", len(paths), nCases))
 	}
